@@ -109,6 +109,8 @@ def run(ctx):
                      {'case': c[0][:60000], 'model_case': c[1][:200], 'build': c[2], 'impl': o[:4000], 'model': mo[c[1]][:4000]})
     ctx.cov['correspondence_cases'] = len(cases); ctx.cov['disagreements'] = ndis
     ctx.cov['input_distribution'] = {'N': Ns, 'vector_kinds': kinds}
+    # allocation failures inside the three Karatsuba entry points (two scratch arrays each): reported or harmless, never a silent wrong product
+    vlib.allocfail_block(ctx, [(fn, N, 1, 2, 8) for fn in (0, 1, 2) for N in (1, 2, 4, 8, 16, 64, 256, 1024)])   # powers of two: the domain of the Karatsuba routines
     for c in cases[:: max(1, len(cases) // 8)]: ctx.sample({'case': c[0][:120], 'build': c[2], 'impl': impl[cases.index(c)][:100]})
 
 def oracle(meta, o):
@@ -133,6 +135,7 @@ def oracle(meta, o):
     return None
 
 def replay(ctx, data):
+    if data.get('tool') == 'allocfail': return vlib.allocfail_replay(data)
     b = data.get('build', 'optim')
     exe = vlib.build_harness('drv.cpp', vlib.build_lib(b), 'spqlios-fma', b)
     o = vlib.run_lines(exe, [data['case']])[0]
